@@ -87,15 +87,39 @@ Theorem C02_noop_rebuild : forall (H : str -> str) cfg s roots w c (ps : list (s
 Proof. exact noop_rebuild. Qed.
 Print Assumptions C02_noop_rebuild.
 
-(* without the distinct-keys guard the statement is false for an injective digest: two targets of
-   one snapshot whose states are encoded to the same byte stream (C09 collision classes) overwrite
-   each other's result and both re-execute on an immediate rebuild *)
+(* the key guard follows from a decidable guard on the snapshot: with the framed key encoding (C09) and
+   an injective, '_'-free digest, pairwise distinct target labels give pairwise distinct change keys *)
+Theorem C02_distinct_labels_distinct_keys : forall (H : str -> str) cfg s roots w c,
+  (forall x y, H x = H y -> x = y) -> (forall x, ~ In ch_us (H x)) ->
+  cfg_mode cfg = LAll -> distinct_labels s = true ->
+  distinct_keys (build_state H cfg s roots w c) = true.
+Proof. exact distinct_labels_distinct_keys. Qed.
+Print Assumptions C02_distinct_labels_distinct_keys.
+
+(* ... so the headline holds for every snapshot whose target labels are pairwise distinct *)
+Theorem C02_noop_rebuild_labels : forall (H : str -> str) cfg s roots w c (ps : list (str * pstate)),
+  (forall x y, H x = H y -> x = y) -> (forall x, ~ In ch_us (H x)) ->
+  cfg_mode cfg = LAll -> cfg_cache cfg = true -> cache_complete c ->
+  br_ok (build H cfg s roots w c) = true ->
+  distinct_labels s = true ->
+  no_nocache_sel s (selection s roots) = true ->
+  forallb (fun p => not_wk (snd p)) ps = true ->
+  let r1 := build H cfg s roots w c in
+  let w' := mkWorld (apply_perturbs ps (w_ws (br_world r1))) (w_ext (br_world r1)) in
+  let r2 := build H cfg s roots w' (br_cache r1) in
+  br_exec r2 = [] /\ br_ok r2 = true.
+Proof. exact noop_rebuild_labels. Qed.
+Print Assumptions C02_noop_rebuild_labels.
+
+(* without the distinct-keys guard the statement is false in general, and distinct labels alone do not
+   give it when the digest is not injective: under a constant digest two targets of one snapshot share
+   their key, overwrite each other's result and the first re-executes on an immediate rebuild *)
 Theorem C02_noop_rebuild_refuted :
   exists (H : str -> str) cfg s roots w c,
-    (forall a b, H a = H b -> a = b) /\
     cfg_mode cfg = LAll /\ cfg_cache cfg = true /\ cache_complete c /\
     br_ok (build H cfg s roots w c) = true /\
     no_nocache_sel s (selection s roots) = true /\
+    distinct_labels s = true /\
     distinct_keys (build_state H cfg s roots w c) = false /\
     let r1 := build H cfg s roots w c in
     br_exec (build H cfg s roots (br_world r1) (br_cache r1)) <> [].
@@ -224,6 +248,11 @@ Theorem C02_noop_rebuild_nonvacuous :
   br_status C02_examples.r2 = [THit; THit; THit; THit].
 Proof. exact C02_examples.noop_rebuild_nonvacuous. Qed.
 Print Assumptions C02_noop_rebuild_nonvacuous.
+
+Theorem C02_noop_rebuild_labels_nonvacuous :
+  distinct_labels C02_examples.sx = true /\ br_exec C02_examples.r2 = [] /\ br_ok C02_examples.r2 = true.
+Proof. exact C02_examples.noop_rebuild_labels_instance. Qed.
+Print Assumptions C02_noop_rebuild_labels_nonvacuous.
 
 Theorem C02_exec_only_if_nonvacuous :
   rt_status (get_rt (process_target hex_enc C02_examples.cfgA C02_examples.sx 0 C02_examples.ta
